@@ -88,6 +88,12 @@ func Init(hist *Sources) {
 
 	if hist.acceptHold {
 		hist.hpos = -1
+
+		// The line kept is the initial state of the new
+		// one, which has none of those of the previous call.
+		undoHist := hist.getHistoryLineChanges()
+		undoHist[-1] = &lineHistory{}
+
 		hist.line.Set(hist.acceptLine...)
 		hist.cursor.Set(hist.line.Len())
 
